@@ -153,6 +153,22 @@ def r2_terminal_flag(ctx, cb, rule='C03-R2'):
                   'ignored action, an out-of-boundary successor): a state that ends a maximal in-boundary path is not '
                   'treated as terminal and a genuine eventually-counterexample is lost' %
                   (cb.strat, b.debug_name(fl), early))
+    # ... and for EVERY such successor: a successor that exists is put to the boundary test before the walk over the
+    # actions goes on (a `continue` in front of the test - "this step changes nothing" - leaves the flag set although
+    # the state has an in-boundary successor, namely itself)
+    sc = getattr(cb, 'succ_call', None)
+    some_s = b.branch(sc, 'Some') if sc is not None else []
+    if some_s and cb.wb is not None:
+        heads_ = [c for c in b.calls_to('Iterator::next') if b.in_cycle(c.bb) and b.dominates(c.bb, sc.bb)]
+        inner = max(heads_, key=lambda c: len([1 for x in heads_ if b.dominates(x.bb, c.bb)])) if heads_ else None
+        r_ = b.reach([e[1] for e in some_s], cut_blocks=[cb.wb.bb])
+        skipped = inner is not None and inner.bb in r_
+        ctx.check(not skipped, rule, 'every-successor-is-boundary-tested', b,
+                  good='every successor that exists reaches the within_boundary test before the next action is tried',
+                  bad='%s: a successor that exists can be passed over without the within_boundary test (the walk over '
+                      'the actions continues first): the terminal flag stays set although the state has an '
+                      'in-boundary successor, and a path that can be extended is reported as an eventually '
+                      'counterexample' % cb.strat, span=sc.span)
     # the flag is (re)initialised to true only before the successor loop of the same job
     s1 = set(bb for (bb, si, v) in stores if v == 1)
     ok2 = all(b.dominates(bb, cb.actions.bb) for bb in s1) and bool(s1)
